@@ -331,4 +331,13 @@ def closest_search(repo: Repo) -> RuleRun:
 
 closest_search.rule_id = "C17.CLOSEST-SEARCH"
 
-RULES = [purity, position_writers, link_algebra, affine_kinds, mirror_matrix, trig_domain, params_used, owns_geometry, angle_dimension, closest_search]
+def float_stores(repo: Repo) -> RuleRun:
+    """'the follower is the image of the leader': the leader the relation is applied to is the position handed in, not its integer part. Arrays stored into in place are float arrays by construction."""
+    from ..alias import inplace_dtype_rule
+
+    return inplace_dtype_rule(repo, PROP, "C17.FLOAT-STORES")
+
+
+float_stores.rule_id = "C17.FLOAT-STORES"
+
+RULES = [purity, position_writers, link_algebra, affine_kinds, mirror_matrix, trig_domain, params_used, owns_geometry, angle_dimension, closest_search, float_stores]
